@@ -547,6 +547,12 @@ class Parser:
                 continue
             if self.at("while") or self.at("loop"):
                 self.fail("loops other than `for` are outside the subset")
+            if self.peek()[0] == "lifetime" and self.peek(1)[1] == ":" and self.peek(2)[1] == "{":
+                lab = self.next()[1]
+                self.next()
+                body = self.block()
+                stmts.append(("labeled", lab, body))
+                continue
             e = self.expr(stmt=True)
             if self.peek()[1] in ASSIGN_OPS and self.peek()[0] == "op":
                 op = self.next()[1]
@@ -759,6 +765,11 @@ class Parser:
                 return ("return", self.expr())
             if tok[1] == "break":
                 self.next()
+                if self.peek()[0] == "lifetime":
+                    lab = self.next()[1]
+                    if not (self.at(";") or self.at("}") or self.at(",")):
+                        self.fail("break with value")
+                    return ("break", lab)
                 if not (self.at(";") or self.at("}") or self.at(",")):
                     self.fail("break with value / label")
                 return ("break",)
